@@ -46,6 +46,12 @@ func checkC01(c *Check) {
 	c01R2(c, R)
 	c01R3(c, R)
 	c01R4(c, R)
+	// … and the expiry the test reads was recorded whenever the IdP announced one: the writers' guard is expires_in > 0
+	// itself (C03.R4) — an expiry that stays `unknown` for a short-lived token is never found expired
+	if c.ID == "C01" {
+		importObls(c, "C03", checkC03, "C01.R4", func(o *Obligation) bool { return strings.HasPrefix(o.Key, "C03.R4/expiry-unknown") })
+		importObls(c, "C12", checkC12, "C01.R6", func(o *Obligation) bool { return strings.HasPrefix(o.Key, "C12.R2/tokens/expiry-after-token") })
+	}
 	c01R5(c, R)
 	c01R6(c)
 	// R7: the bypass predicate. The shared allow is justified by !mustTriggerCheck (R5); that predicate
